@@ -1,17 +1,168 @@
-import GIV.Model.CachePut
-/-! C12 — an interrupted or failing Put leaves the cache consistent (theorems under construction). -/
+import GIV.Lemmas.CachePutSeq
+/-!
+# C12 — an interrupted or failing Put leaves the cache consistent
+
+Model: `GIV.Model.CachePut` (system-call granularity; the order of the calls and the deciding
+conditions are the regenerated facts `GIV.Gen.CachePut`).  `tstep` is one program step of one
+operation against the file system under a fault (`none`, `fail`, `short k`); a process may also stop
+before or after any step.  `FSInv` is the invariant of the directory:
+(D) a data file `h-d`, `h` the hash of an offered content `c`, is shorter than `c` or equal to `c`;
+(I) an index file is empty or a whole entry `(H c, |c|)` of an offered content.
+
+Hypotheses (`Hyps`): no other byte string has the hash of an offered content; the index entry of an
+offered content has the fixed length and parses back (C05's codec theorems).
+-/
 namespace GIV.C12
 open GIV GIV.CachePut
 
-/-- the write order and the error paths of `put` / `copyFile` / `putIndexEntry` the proofs rely on,
-as regenerated from the source. -/
-theorem source_order_facts :
-    Gen.CachePut.indexAfterCopy = true ∧ Gen.CachePut.copyErrSkipsIndex = true ∧
-    Gen.CachePut.checkBeforeLastByte = true ∧ Gen.CachePut.copyNBeforeCheck = true ∧
-    Gen.CachePut.truncOnSeekErr = true ∧ Gen.CachePut.truncOnCopyErr = true ∧
-    Gen.CachePut.truncOnLastReadErr = true ∧ Gen.CachePut.truncOnMismatch = true ∧
-    Gen.CachePut.truncOnCommitErr = true ∧ Gen.CachePut.removeOnCloseErr = true ∧
-    Gen.CachePut.closeBeforeChtimes = true ∧ Gen.CachePut.indexRemoveOnErr = true := by
-  decide
+variable {Id Hsh : Type} [DecidableEq Id] [DecidableEq Hsh]
+variable {P : Params Id Hsh} {offered : Bytes → Prop}
+
+/-! ## a small instance, for the non-vacuity examples -/
+
+/-- identity "hash" (collision free), two offered contents, entries `[tag, size, 0, …]` of 175 bytes. -/
+def toyOffered (c : Bytes) : Prop := c = [7] ∨ c = [8, 9, 10]
+
+def toyEnc (_ : Nat) (out : Bytes) (size : Nat) (_ : Int) : Bytes :=
+  [out.headD 0, size.toUInt8] ++ List.replicate 173 0
+
+def toyParse (_ : Nat) (bs : Bytes) : Option (Entry Bytes) :=
+  if bs.length ≠ 175 then none
+  else if bs.headD 0 = 7 then some ⟨[7], (bs.getD 1 0).toNat⟩
+  else if bs.headD 0 = 8 then some ⟨[8, 9, 10], (bs.getD 1 0).toNat⟩
+  else none
+
+def toyP : Params Nat Bytes := ⟨fun b => b, toyEnc, toyParse⟩
+
+set_option maxRecDepth 8000 in
+theorem toyHyps : Hyps toyP toyOffered where
+  noColl := fun c x _ h => h
+  encLen := fun id c t _ => by
+    simp only [toyP, toyEnc, List.length_append, List.length_cons, List.length_nil, List.length_replicate, Gen.CachePut.entrySize]
+  parseEnc := fun id c t hc => by
+    rcases hc with rfl | rfl <;> rfl
+  parseNil := fun id => by simp [toyP, toyParse]
+
+def emptyFS : FS Nat Bytes :=
+  { names := fun _ => none, inodes := fun _ => none, nextIno := 0, fds := fun _ => none, nextFd := 0 }
+
+theorem emptyFS_inv : FSInv toyP toyOffered emptyFS :=
+  ⟨⟨fun _ _ h => by simp [emptyFS] at h, fun _ _ h => by simp [emptyFS] at h⟩, fun _ _ _ _ h => by simp [emptyFS] at h⟩
+
+/-- a source that yields other bytes on the second pass. -/
+def toySrc : Src := ⟨true, [8, 9, 10], true, [8, 0, 10]⟩
+
+/-! ## the theorems -/
+
+/-- **Every program step of `Put`** — at every program point of `copyFile` and `putIndexEntry`, whatever
+the source reader delivers on its second pass (`s.data2`, `s.seek2` are arbitrary), for a fault-free
+call, a failing call or a short write (at most one such fault per Put: `FaultStep`) — **preserves the
+local invariant** `LocalPut`, which is the directory invariant `FSInv` except that a Put which has
+already been hit by its fault may be on its way to `Truncate(0)` / `Remove` of the one file it damaged.
+(One lemma per program point in `GIV.Lemmas.CachePutStep`: `step_pStat … step_iChtimes`.) -/
+theorem put_step_preserves_inv (hy : Hyps P offered) {now : Int} {id : Id} {s : Src} (hoff : offered s.data1)
+    {used used' : Bool} {fs fs' : FS Id Hsh} {proc n : Nat} {fault : Fault} {r : Res} {pc : PC Hsh} {nx : Next Hsh}
+    (hL : LocalPut P offered now id s used fs pc)
+    (hs : tstep P now fs proc (.put id s) pc fault n = some (fs', r, nx))
+    (hf : FaultStep fault used used') :
+    match nx with
+    | .goto pc' => LocalPut P offered now id s used' fs' pc'
+    | .done _ => FSInv P offered fs' := by
+  have h := put_step_preserves hy hoff hL hs hf
+  cases nx <;> exact h
+
+example : ∃ fs' r nx, tstep toyP 5 emptyFS 0 (.put 1 toySrc) .pStat .fail 0 = some (fs', r, nx) ∧
+    LocalPut toyP toyOffered 5 1 toySrc false emptyFS .pStat ∧ FaultStep .fail false true :=
+  ⟨_, _, _, rfl, emptyFS_inv, .fail⟩
+
+/-- **Stopping between any two file operations** (before the fault budget is spent) leaves the full
+invariant: at every program point of a Put that has not been hit by a fault, `FSInv` holds — also after
+the descriptors of the dead process are closed. -/
+theorem put_crash_preserves_inv (hy : Hyps P offered) {now : Int} {id : Id} {s : Src} (hoff : offered s.data1)
+    {fs : FS Id Hsh} {pc : PC Hsh} (proc : Nat) (hL : LocalPut P offered now id s false fs pc) :
+    FSInv P offered (fs.closeProc proc) :=
+  inv_closeProc proc (local_unused_inv hy hoff hL)
+
+example : FSInv toyP toyOffered (emptyFS.closeProc 0) :=
+  put_crash_preserves_inv toyHyps (now := 5) (id := 1) (s := toySrc) (Or.inr rfl) 0 (pc := .pStat) emptyFS_inv
+
+/-- **Every program step of a lookup** (`get`, `GetFile`, `GetBytes`; any fault) preserves the invariant;
+no lookup changes a file. -/
+theorem lookup_preserves_inv {now : Int} {op : Op Id} (hop : isLookup op = true)
+    {fs fs' : FS Id Hsh} {proc n : Nat} {fault : Fault} {r : Res} {pc : PC Hsh} {nx : Next Hsh}
+    (hL : LocalGet P offered op.id fs pc)
+    (hs : tstep P now fs proc op pc fault n = some (fs', r, nx)) :
+    FSInv P offered fs' ∧ SameFiles fs fs' := by
+  have hsame : SameFiles fs fs' := by
+    rcases lookup_sameFiles (offered := offered) hop hs with h | h
+    · exact h
+    · rw [h] at hL; exact hL.elim
+  exact ⟨hsame.inv (localGet_inv hL), hsame⟩
+
+example : ∃ fs' r nx, tstep toyP 5 emptyFS 0 (.getFile 1) .gOpen .none 0 = some (fs', r, nx) ∧
+    LocalGet toyP toyOffered (Op.getFile 1).id emptyFS .gOpen :=
+  ⟨_, _, _, rfl, emptyFS_inv⟩
+
+/-- **Any history** of Puts and lookups from an undamaged cache, each operation run by a process that
+is hit by at most one fault (a failing call, a short write, death before or after any call; the source
+reader of each Put arbitrary on its second pass), **ends in a directory satisfying the invariant**. -/
+theorem reachable_inv (hy : Hyps P offered) {fs : FS Id Hsh} (h : Hist P offered fs) : FSInv P offered fs := by
+  induction h with
+  | init h0 => exact h0
+  | op _ hoffers hex ih => exact opExec_inv hy hoffers ih hex
+
+example : Hist toyP toyOffered emptyFS := .init emptyFS_inv
+
+/-- **Under the invariant lookups are safe**: a `GetFile` that succeeds names a file holding exactly the
+content `c` with `OutputID = H c` and `Size = |c|`; a `GetBytes` that succeeds returns bytes whose hash
+is the reported OutputID; a `Get` that succeeds reports an entry of an offered content. -/
+theorem inv_lookup_safe (hy : Hyps P offered) {now : Int} {proc : Nat} {op : Op Id} (hop : isLookup op = true)
+    {fs fs' : FS Id Hsh} {res : Result Hsh} (hinv : FSInv P offered fs)
+    (hex : OpExec P now proc op fs fs' (.ret res)) :
+    (∀ e cont, res = .file e cont → ∃ c, offered c ∧ e.out = P.H c ∧ e.size = c.length ∧ cont = some c) ∧
+    (∀ d e, res = .bytes d e → P.H d = e.out) := by
+  have hst := get_start (P := P) (offered := offered) hop hinv
+  have hres : ResOK P offered res := by
+    unfold OpExec at hex
+    split at hex
+    · next r hr =>
+      obtain ⟨_, ho⟩ := hex
+      cases ho
+      rw [hr] at hst
+      exact hst.2
+    · next pc hpc =>
+      rw [hpc] at hst
+      exact (get_run_inv hy hop hex hst).2 res rfl
+  constructor
+  · intro e cont h
+    subst h
+    obtain ⟨c, hc, rfl, rfl⟩ := hres
+    exact ⟨c, hc, rfl, rfl, rfl⟩
+  · intro d e h
+    subst h
+    exact hres.1
+
+example : OpExec toyP 5 0 (.getFile 1) emptyFS emptyFS (.ret .miss) :=
+  OpRun.done (FaultStep.none false) (fault := .none) (n := 0) (r := .enoent) rfl
+
+/-- **Whatever state the files are in** (no invariant assumed: pre-damaged outputs, foreign bytes, missing
+files), a `GetBytes` that succeeds returns bytes whose hash is the reported OutputID. -/
+theorem getBytes_gate_any_world {now : Int} {proc : Nat} {op : Op Id} {fs fs' : FS Id Hsh} {d : Bytes} {e : Entry Hsh}
+    (hex : OpExec P now proc op fs fs' (.ret (.bytes d e))) : P.H d = e.out := by
+  unfold OpExec at hex
+  split at hex
+  · next r hr =>
+    obtain ⟨_, ho⟩ := hex
+    cases ho
+    cases op with
+    | put id s =>
+      simp only [startOp] at hr
+      split at hr
+      · cases hr
+      · split at hr <;> cases hr
+    | get id => cases hr
+    | getFile id => cases hr
+    | getBytes id => cases hr
+  · exact run_bytes_gate hex rfl
 
 end GIV.C12
